@@ -106,6 +106,13 @@ func VerifC16Update() {
 	comment := sb.String()
 	var script []byte
 	script = append(script, comment...)
+	// the archive may list g0.txt twice (allowed unless RequireUniqueNames):
+	// the later entry is the one unpacked last, i.e. the one compared
+	dup := rt.Param("DUP", 1) == 1 && rt.Bool()
+	if dup {
+		script = append(script, "-- g0.txt --\nold\n"...)
+		rt.Reach("duplicate-entry-name")
+	}
 	for i, n := range names {
 		script = append(script, ("-- " + n + " --\n")...)
 		script = append(script, gold[i]...)
@@ -167,11 +174,19 @@ func VerifC16Update() {
 	rt.Assert(scriptWritten, "script-rewritten")
 	got := txtar.Parse(fsys.File(vScriptFile).Data)
 	rt.Assert(string(got.Comment) == comment, "script-text-unchanged")
-	rt.Assert(len(got.Files) == len(names), "same-number-of-entries")
-	if len(got.Files) != len(names) {
+	off := 0
+	if dup {
+		off = 1
+	}
+	rt.Assert(len(got.Files) == len(names)+off, "same-number-of-entries")
+	if len(got.Files) != len(names)+off {
 		return
 	}
-	for i, f := range got.Files {
+	if dup {
+		// which of two same-named entries is "this entry" is not stated: only its name is checked
+		rt.Assert(got.Files[0].Name == "g0.txt", "entry-names-and-order-unchanged")
+	}
+	for i, f := range got.Files[off:] {
 		rt.Assert(f.Name == names[i], "entry-names-and-order-unchanged")
 		if !updated[i] {
 			rt.Assert(len(f.Data) == len(gold[i]), "untouched-entry-length")
